@@ -52,8 +52,20 @@ pub fn from_config(label: &str, cfg: merchant::Config) -> Result<Merchant, Strin
         if a[0].kind != Kind::G1 || b[0].kind != Kind::G1 {
             return Err("fixture: digit signature atoms are not G1".into());
         }
-        let s1 = g1(tr.atom_bytes(a[0])).ok_or("fixture: bad sigma1")?;
-        let s2 = g1(tr.atom_bytes(b[0])).ok_or("fixture: bad sigma2")?;
+        // a hostile parameter set that the library agreed to decode may hold points outside the group:
+        // keep them as they are (only the shadow provers read this table)
+        let lenient = |b: &[u8]| -> Option<bls12_381::G1Affine> {
+            g1(b).or_else(|| {
+                let mut a = [0u8; 48];
+                if b.len() != 48 {
+                    return None;
+                }
+                a.copy_from_slice(b);
+                Option::from(bls12_381::G1Affine::from_compressed_unchecked(&a))
+            })
+        };
+        let s1 = lenient(tr.atom_bytes(a[0])).ok_or("fixture: bad sigma1")?;
+        let s2 = lenient(tr.atom_bytes(b[0])).ok_or("fixture: bad sigma2")?;
         digit_sigs.push((s1, s2));
         i += 1;
     }
